@@ -117,6 +117,10 @@ begin
              if ~(WKind = "setifabsent" /\ pres) then
                 mapped := FALSE; mapped2 := TRUE; wrote := TRUE;
                 atomicCause := IF pres THEN "Replacement" ELSE "Expiration";
+             elsif exp - wn # TTL then
+                \* SetIfAbsent that finds the key present is a read: the read hook of the expiry calculator runs inside the computation
+                shortened := shortened \/ (wn + TTL < exp);
+                exp := wn + TTL;
              end if;
           end if;
  w_after: \* after the computation (verifhook "set.afterCompute"): afterWrite publishes the event, or afterRead for a no-op
@@ -185,6 +189,12 @@ begin
  f_wait:  await \A p \in (Readers \cup Writers \cup {Sweeper, Ticker}) : pc[p] = "Done";
           if evPublished /\ ~evApplied then
              inWheel := FALSE; inPolicy := FALSE; dead := TRUE; inWheel2 := TRUE; evApplied := TRUE;
+          end if;
+ f_sweep: \* ... a full run: the first entry is swept if its deadline has passed (nobody races any more)
+          lastSweep := clock;
+          if mapped /\ inWheel /\ exp < clock then
+             mapped := FALSE; inWheel := FALSE; inPolicy := FALSE; dead := TRUE;
+             events := Append(events, [cause |-> "Expiration", exp |-> exp, at |-> clock, path |-> "wheel"]);
           end if;
 end process;
 end algorithm; *)
@@ -316,18 +326,23 @@ w_comp(self) == /\ pc[self] = "w_comp"
                                       /\ mapped2' = TRUE
                                       /\ wrote' = [wrote EXCEPT ![self] = TRUE]
                                       /\ atomicCause' = IF pres'[self] THEN "Replacement" ELSE "Expiration"
-                                 ELSE /\ TRUE
+                                      /\ UNCHANGED << exp, shortened >>
+                                 ELSE /\ IF exp - wn[self] # TTL
+                                            THEN /\ shortened' = (shortened \/ (wn[self] + TTL < exp))
+                                                 /\ exp' = wn[self] + TTL
+                                            ELSE /\ TRUE
+                                                 /\ UNCHANGED << exp, 
+                                                                 shortened >>
                                       /\ UNCHANGED << mapped, mapped2, 
                                                       atomicCause, wrote >>
                       ELSE /\ TRUE
-                           /\ UNCHANGED << mapped, mapped2, atomicCause, pres, 
-                                           wrote >>
+                           /\ UNCHANGED << exp, mapped, shortened, mapped2, 
+                                           atomicCause, pres, wrote >>
                 /\ pc' = [pc EXCEPT ![self] = "w_after"]
-                /\ UNCHANGED << clock, exp, dead, inWheel, inPolicy, events, 
-                                hits, lastSweep, shortened, inWheel2, 
-                                asyncCause, evPublished, evApplied, n, now, 
-                                cur, wn, pres2, k, T, path, c1, revived, 
-                                removed >>
+                /\ UNCHANGED << clock, dead, inWheel, inPolicy, events, hits, 
+                                lastSweep, inWheel2, asyncCause, evPublished, 
+                                evApplied, n, now, cur, wn, pres2, k, T, path, 
+                                c1, revived, removed >>
 
 w_after(self) == /\ pc[self] = "w_after"
                  /\ pres2' = [pres2 EXCEPT ![self] = IF ReRead THEN (exp > wn[self]) ELSE pres[self]]
@@ -488,13 +503,29 @@ f_wait == /\ pc[-2] = "f_wait"
                 ELSE /\ TRUE
                      /\ UNCHANGED << dead, inWheel, inPolicy, inWheel2, 
                                      evApplied >>
-          /\ pc' = [pc EXCEPT ![-2] = "Done"]
+          /\ pc' = [pc EXCEPT ![-2] = "f_sweep"]
           /\ UNCHANGED << clock, exp, mapped, events, hits, lastSweep, 
                           shortened, mapped2, atomicCause, asyncCause, 
                           evPublished, n, now, cur, wn, pres, pres2, wrote, k, 
                           T, path, c1, revived, removed >>
 
-Final == f_wait
+f_sweep == /\ pc[-2] = "f_sweep"
+           /\ lastSweep' = clock
+           /\ IF mapped /\ inWheel /\ exp < clock
+                 THEN /\ mapped' = FALSE
+                      /\ inWheel' = FALSE
+                      /\ inPolicy' = FALSE
+                      /\ dead' = TRUE
+                      /\ events' = Append(events, [cause |-> "Expiration", exp |-> exp, at |-> clock, path |-> "wheel"])
+                 ELSE /\ TRUE
+                      /\ UNCHANGED << mapped, dead, inWheel, inPolicy, events >>
+           /\ pc' = [pc EXCEPT ![-2] = "Done"]
+           /\ UNCHANGED << clock, exp, hits, shortened, mapped2, inWheel2, 
+                           atomicCause, asyncCause, evPublished, evApplied, n, 
+                           now, cur, wn, pres, pres2, wrote, k, T, path, c1, 
+                           revived, removed >>
+
+Final == f_wait \/ f_sweep
 
 (* Allow infinite stuttering to prevent deadlock on termination. *)
 Terminating == /\ \A self \in ProcSet: pc[self] = "Done"
